@@ -305,14 +305,18 @@ static int check_len_or_resize(assemblyline_t al, int buf_pos) {
     FAIL_IF_VAR(al->external, "exceeded memory buffer: al->buffer_len = %d\n",
                 al->buffer_len)
 #ifdef __linux__
-    // resize internal memory buffer
-    void *resize = mremap(al->buffer, al->buffer_len,
-                          al->buffer_len + MEM_BUFFER, MREMAP_MAYMOVE);
+    // resize internal memory buffer (by as many steps as the write position
+    // needs: asm_set_offset may have moved it far beyond the capacity)
+    int new_len = al->buffer_len + MEM_BUFFER;
+    while (buf_pos + BUFFER_TOLERANCE > new_len)
+      new_len += MEM_BUFFER;
+    void *resize =
+        mremap(al->buffer, al->buffer_len, new_len, MREMAP_MAYMOVE);
     // NOLINTNEXTLINE(performance-no-int-to-ptr)
     FAIL_SYS(resize == MAP_FAILED, "failed to resize buffer\n", EXIT_FAILURE)
-    AL_VERIF_GROW(al, al->buffer_len, al->buffer_len + MEM_BUFFER,
+    AL_VERIF_GROW(al, al->buffer_len, new_len,
                   (uint8_t *)resize != al->buffer);
-    al->buffer_len += MEM_BUFFER;
+    al->buffer_len = new_len;
     al->buffer = (uint8_t *)resize;
 #else
     fprintf(stderr, "internal buffer too small. Not running on Linux, "
